@@ -59,7 +59,7 @@ TX_ATOMS = {
     "HASWIT": "tx.HasWitness()",
     "FLAGS": "flags",
     "BIT": ["1 & flags", "flags & 1"],
-    "NONEMPTY": "tx.vin.size()",
+    "NONEMPTY": ["tx.vin.size()", ("tx.vin.empty()", False)],
 }
 SER_TABLE = [("version", 0, "true"), ("flags|=1", 0, "ALLOW && HASWIT"), ("dummy-vin", 0, "FLAGS"), ("flags", 0, "FLAGS"), ("vin", 0, "true"), ("vout", 0, "true"),
              ("stack", 1, "BIT"), ("nLockTime", 0, "true")]
@@ -83,6 +83,19 @@ def tx_items(fn, P, op):
             fs.append(f if g.pol else F.mk_not(f))
         return F.mk_and(fs)
 
+    # range-for variables that stand for an element of a member of the transaction (for (auto& txin : tx.vin))
+    elem_of = {}
+    for st in stmts(fn.body):
+        if st.get("k") == "foreach" and isinstance(st.get("var"), dict) and st["var"].get("n"):
+            r = norm(st.get("range"))
+            if match([".", ["param", txn], ANY], r):
+                elem_of[st["var"]["n"]] = r[2]
+
+    def root(x):
+        while is_expr(x) and x[0] in (".", "idx"):
+            x = x[1]
+        return x
+
     for s in all_sites(fn, P):
         if s.expr is None:
             if s.stmt.get("k") == "throw":
@@ -93,7 +106,7 @@ def tx_items(fn, P, op):
             x = norm(e[3])
             if match([".", ["param", txn], ANY], x):
                 key = x[2]
-            elif x[0] == "." and isinstance(x[2], str) and contains(["param", txn], x):
+            elif x[0] == "." and isinstance(x[2], str) and (match(["param", txn], root(x)) or (match(["local", ANY], root(x)) and root(x)[1] in elem_of)):
                 key = x[2]
             elif x[0] == "local":
                 d = [st for st in stmts(fn.body) if st.get("k") == "decl" and st.get("n") == x[1]]
@@ -166,15 +179,22 @@ def transaction(ctx, P):
             if k == "stack":
                 lp = s.loops[-1] if s.loops else None
                 okl = False
-                if lp is not None and lp.get("k") == "for" and isinstance(lp.get("init"), dict) and match(["int", 0], lp["init"].get("i")):
+                txn = fn.params[0]["n"]
+                if lp is not None and lp.get("k") == "foreach":
+                    # for (auto& txin : tx.vin) ... txin.scriptWitness.stack
+                    v = lp["var"].get("n")
+                    okl = match([".", ["param", txn], "vin"], norm(lp.get("range"))) and not has_break(lp.get("b")) and \
+                        not [x for x in stmts(lp.get("b")) if x.get("k") in ("continue", "ret")] and \
+                        match([".", [".", ["local", v], "scriptWitness"], "stack"], norm(s.expr[3]))
+                elif lp is not None and lp.get("k") == "for" and isinstance(lp.get("init"), dict) and match(["int", 0], lp["init"].get("i")):
                     iv = lp["init"].get("n")
                     c = norm(lp.get("c"))
                     txn = fn.params[0]["n"]
                     okl = match(["b", "<", ["local", iv], ["mcall", "size", [".", ["param", txn], "vin"]]], c) and match(["u", lambda o: o in ("post++", "++"), ["local", iv]], lp.get("inc")) \
                         and not has_break(lp.get("b")) and not [x for x in stmts(lp.get("b")) if x.get("k") in ("continue", "ret")] \
                         and match([".", [".", ["idx", [".", ["param", txn], "vin"], ["local", iv]], "scriptWitness"], "stack"], norm(s.expr[3]))
-                ctx.ob("%s/witness-loop@L%s" % (inst, s.line), "LOOP", "the witness stack of every input index 0..vin.size()-1 is transferred: for (i = 0; i < tx.vin.size(); i++) "
-                       "tx.vin[i].scriptWitness.stack", bool(okl), s.where)
+                ctx.ob("%s/witness-loop@L%s" % (inst, s.line), "LOOP", "the witness stack of every input is transferred by a complete loop over tx.vin (index loop 0..vin.size()-1 "
+                       "or range-for): tx.vin[i].scriptWitness.stack", bool(okl), s.where)
             if k == "dummy-vin":
                 nm = s.expr[3][1]
                 uses = [x for _, e in all_exprs(fn.body) for x in subexprs(e) if match(["local", nm], x)]
@@ -284,6 +304,8 @@ def compact_size(ctx, P):
         dom = F.parse("(LT253 || EQ253 || EQ254 || EQ255) && !(LT253 && EQ253) && !(LT253 && EQ254) && !(LT253 && EQ255) && !(EQ253 && EQ254) && !(EQ253 && EQ255) && !(EQ254 && EQ255)")
         spec_read = {16: "EQ253", 32: "EQ254", 64: "EQ255"}
 
+        subst = {k: v for k, v in naming(fn, P).items() if k not in (ch, sz, "@idx")}
+
         def g_if(s):
             return F.mk_and([g.formula(subst) for g in s.guards if g.kind in ("if", "sc")])
 
@@ -359,7 +381,17 @@ def tx_hashes(ctx, P):
     a, b = P.const("TX_NO_WITNESS"), P.const("TX_WITH_WITNESS")
     ctx.ob("const/TX_PARAMS", "CONST", "TX_NO_WITNESS.allow_witness == false and TX_WITH_WITNESS.allow_witness == true", (a, b) == (0, 1), None, {"values": [a, b]})
 
-    def hashed_params(v):
+    def hashed_params(v, fn=None):
+        # named writer: HashWriter h; h << PARAMS(*this); return ...h.GetHash()
+        if fn is not None:
+            ws = [st["n"] for st in stmts(fn.body) if st.get("k") == "decl" and re.sub(r"\bconst\b|\s", "", st.get("ty", "")) == "HashWriter"]
+            for w in ws:
+                feeds = [x for _, e in all_exprs(fn.body) for x in subexprs(e) if x[0] == "b" and x[1] == "<<" and match(["local", w], x[2])]
+                chained = [x for _, e in all_exprs(fn.body) for x in subexprs(e) if x[0] == "b" and x[1] == "<<" and is_expr(x[2]) and x[2][0] == "b" and x[2][1] == "<<"]
+                got = any(x[0] == "mcall" and x[1] == "HashWriter::GetHash" and match(["local", w], x[2]) for x in subexprs(v))
+                if got and len(feeds) == 1 and not chained and is_expr(feeds[0][3]) and feeds[0][3][0] == "opcall" and feeds[0][3][2] == "TransactionSerParams::operator()" \
+                        and match(["u", "*", ["this"]], feeds[0][3][4]) and match(["global", ANY], feeds[0][3][3]):
+                    return feeds[0][3][3][1]
         # FromUint256(HashWriter{} << PARAMS(*this)).GetHash())
         hits = [x for x in subexprs(v) if x[0] == "b" and x[1] == "<<" and match(["ctor", "HashWriter"], x[2]) and is_expr(x[3]) and x[3][0] == "opcall"
                 and x[3][2] == "TransactionSerParams::operator()"]
@@ -374,11 +406,11 @@ def tx_hashes(ctx, P):
 
     f = ctx.used(P.fn("CTransaction::ComputeHash"))
     ex = [e for e in exits(f, P)]
-    ok = len(ex) == 1 and ex[0].kind == "ret" and hashed_params(ex[0].value) == "TX_NO_WITNESS"
+    ok = len(ex) == 1 and ex[0].kind == "ret" and hashed_params(ex[0].value, f) == "TX_NO_WITNESS"
     ctx.ob("txid/no-witness-serialisation", "PROVENANCE", "the txid is HashWriter{} << TX_NO_WITNESS(*this) -> GetHash() on every path", ok, f.where)
     mg = ctx.used(P.fn("CMutableTransaction::GetHash"))
     ex = [e for e in exits(mg, P)]
-    ok = len(ex) == 1 and ex[0].kind == "ret" and hashed_params(ex[0].value) == "TX_NO_WITNESS"
+    ok = len(ex) == 1 and ex[0].kind == "ret" and hashed_params(ex[0].value, mg) == "TX_NO_WITNESS"
     ctx.ob("txid/mutable-no-witness-serialisation", "PROVENANCE", "CMutableTransaction::GetHash is HashWriter{} << TX_NO_WITNESS(*this) -> GetHash() too", ok, mg.where)
     g = ctx.used(P.fn("CTransaction::ComputeWitnessHash"))
     okw = True
@@ -387,7 +419,7 @@ def tx_hashes(ctx, P):
         if e.kind != "ret":
             okw = False
             continue
-        hp = hashed_params(e.value)
+        hp = hashed_params(e.value, g)
         bf, _, _ = F.bind_atoms(e.formula, {"HASWIT": re.compile(r"(this\.)?CTransaction::HasWitness\(\)")})
         if hp == "TX_WITH_WITNESS":
             n += 1
